@@ -87,6 +87,8 @@ type WorkerArgs struct {
 	DeadlineS int     `json:"deadline_s"`
 	Enumerate string  `json:"enumerate,omitempty"`
 	Serve     bool    `json:"serve,omitempty"`
+	VarMod    int     `json:"var_mod,omitempty"`
+	VarRem    int     `json:"var_rem,omitempty"`
 }
 
 // ---- property table -----------------------------------------------------------------------
@@ -120,6 +122,12 @@ func init() {
 	for _, id := range []string{"C01", "C02", "C04", "C06", "C07", "C10", "C11", "C13", "C18"} {
 		props[id] = e1("exploration", 16000, 1600000, ntRule)
 	}
+	c05 := e1("fault_enumeration", 96, 6000, "one case = one simulated execution of a seeded program with ONE planned transport fault: for every base program the fault-free twin is run first, its transport calls are numbered per endpoint, and then the k-th call of each endpoint is failed for every k and every kind (read error, read error with data, write error after a partial write, peer close, local close); distinct = distinct SHA-256 of the director log; non-trivial = a message/response was delivered and a fault fired or a preemption happened")
+	c05.Enumerate = "io-faults"
+	props["C05"] = c05
+	c12 := e1("fault_enumeration", 160, 16000, "one case = one simulated execution of a seeded program with ONE planned close/cancel injected at an exact director step of the close-free twin run (quick: every 3rd step, thorough: every step, two kinds each): Conn.Close, concurrent double Conn.Close, cancel of the server context, transport closed underneath either side, listener failure; distinct = distinct SHA-256 of the director log")
+	c12.Enumerate = "close-steps"
+	props["C12"] = c12
 }
 
 // ---- helpers ---------------------------------------------------------------------------------
@@ -355,13 +363,14 @@ func cmdCheck(prop, tier string) int {
 	nw := envInt("VERIF_WORKERS", 16)
 	chunk := uint64(1500)
 	if cfg.Enumerate != "" {
-		chunk = 40
+		chunk = 2
 	}
 	spec := RunSpec{Engine: cfg.Engine, Prop: prop, Seed: seed, Tier: tier, Budget: cfg.Budget}
 
 	agg := newAgg()
 	var wg sync.WaitGroup
-	jobs := make(chan [2]uint64, 1024)
+	jobs := make(chan [3]uint64, 1<<16)
+	const varSplit = 8
 	var firstErr error
 	var errMu sync.Mutex
 	deadline := time.Now().Add(time.Duration(capS) * time.Second)
@@ -379,6 +388,9 @@ func cmdCheck(prop, tier string) int {
 				n++
 				wa := WorkerArgs{Spec: spec, From: j[0], To: j[1], Stride: 1, Out: out, Samples: 1, Resample: 97,
 					DeadlineS: int(left.Seconds()), Enumerate: cfg.Enumerate}
+				if cfg.Enumerate != "" {
+					wa.VarMod, wa.VarRem = varSplit, int(j[2])
+				}
 				if err := runWorker(bres.Binary, wa, 2); err != nil {
 					errMu.Lock()
 					if firstErr == nil {
@@ -397,7 +409,13 @@ func cmdCheck(prop, tier string) int {
 		if to > total {
 			to = total
 		}
-		jobs <- [2]uint64{from, to}
+		if cfg.Enumerate != "" {
+			for r := uint64(0); r < varSplit; r++ {
+				jobs <- [3]uint64{from, to, r}
+			}
+		} else {
+			jobs <- [3]uint64{from, to, 0}
+		}
 	}
 	close(jobs)
 	wg.Wait()
@@ -486,16 +504,16 @@ func cmdCheck(prop, tier string) int {
 	}
 
 	wall := time.Since(start).Seconds()
-	if err := writeEvidence(verif, prop, tier, seed, cfg, agg, wall, runS, exit, knownHit); err != nil {
+	if err := writeEvidence(verif, prop, tier, seed, cfg, agg, wall, runS, reported, knownHit); err != nil {
 		fmt.Fprintln(os.Stderr, "INFRA-ERROR:", err)
 		return 2
 	}
-	fmt.Printf("%s %s: runs=%d distinct_nontrivial=%d steps=%d sim_time=%.1fs inconclusive=%d violations=%d known=%d wall=%.1fs (%.0f runs/s)\n",
-		prop, tier, agg.runs, len(agg.nontrivial), agg.steps, float64(agg.simMS)/1000, agg.inconcl, len(keys), len(knownHit), wall, float64(agg.runs)/runS)
+	fmt.Printf("%s %s: runs=%d distinct_nontrivial=%d steps=%d sim_time=%.1fs inconclusive=%d violations=%d known_findings_hit=%d (in %d signature classes) wall=%.1fs (%.0f runs/s)\n",
+		prop, tier, agg.runs, len(agg.nontrivial), agg.steps, float64(agg.simMS)/1000, agg.inconcl, reported, len(knownHit), len(keys)-reported, wall, float64(agg.runs)/runS)
 	return exit
 }
 
-func writeEvidence(verif, prop, tier string, seed uint64, cfg propCfg, a *aggregate, wall, runS float64, exit int, knownHit map[string]int) error {
+func writeEvidence(verif, prop, tier string, seed uint64, cfg propCfg, a *aggregate, wall, runS float64, unknownViol int, knownHit map[string]int) error {
 	var samples []any
 	for _, s := range a.samples {
 		lines := s.Lines
@@ -514,10 +532,6 @@ func writeEvidence(verif, prop, tier string, seed uint64, cfg propCfg, a *aggreg
 			never = append(never, k)
 		}
 	}
-	nViol := 0
-	for range a.viol {
-		nViol++
-	}
 	kh := map[string]int{}
 	for k, v := range knownHit {
 		kh[strings.SplitN(k, "\x00", 2)[1]] = v
@@ -528,7 +542,7 @@ func writeEvidence(verif, prop, tier string, seed uint64, cfg propCfg, a *aggreg
 		"seed":        seed,
 		"level":       cfg.Level,
 		"wall_s":      wall,
-		"violations":  nViol - len(kh),
+		"violations":  unknownViol,
 		"assumptions": cfg.Assume,
 		"coverage": map[string]any{
 			"evaluations":            a.runs,
